@@ -119,6 +119,8 @@ fn main() {
                         let name = format!("run-{}", ["a", "b", "c", "d", "e", "f"][*pi]);
                         g.export(run, &name).unwrap();
                         designated.insert(name);
+                        // one node designated under a second name as well
+                        if *pi == chosen[0] { let again = format!("again-{}", ["a", "b", "c", "d", "e", "f"][*pi]); g.export(run, &again).unwrap(); designated.insert(again); }
                         let _ = k;
                     }
                     if explicit != 0 && !explicit_first { explicit_node = Some(add_explicit(&mut g)); }
